@@ -59,12 +59,17 @@ func (e *Ecosystem) NewVersion(version string) (*Version, error) {
 		version = "v" + version
 	}
 
-	// Try to parse as pseudo-version first
-	if pseudo, err := parsePseudoVersion(version); err == nil {
+	// Try to parse as pseudo-version first (build metadata is not part of the pseudo-version syntax)
+	core, build := version, ""
+	if i := strings.Index(version, "+"); i != -1 && semverPattern.MatchString(version) {
+		core, build = version[:i], version[i+1:]
+	}
+	if pseudo, err := parsePseudoVersion(core); err == nil {
 		return &Version{
 			major:    pseudo.major,
 			minor:    pseudo.minor,
 			patch:    pseudo.patch,
+			build:    build,
 			pseudo:   &pseudo.pseudoVersion,
 			original: original,
 		}, nil
@@ -195,21 +200,25 @@ func (v *Version) Compare(other *Version) int {
 		return compareInt(v.patch, other.patch)
 	}
 
-	// Handle pseudo-version comparison
-	if v.pseudo != nil && other.pseudo != nil {
-		return v.pseudo.timestamp.Compare(other.pseudo.timestamp)
-	}
-	if v.pseudo != nil && other.pseudo == nil {
-		// Pseudo-versions are pre-release, so they come before releases, and
-		// they sort before every tagged pre-release of the same version.
-		return -1
-	}
-	if v.pseudo == nil && other.pseudo != nil {
-		return 1
-	}
+	// Compare prerelease according to semver rules; a pseudo-version takes part with its
+	// SemVer spelling (0.yyyymmddhhmmss-abcdefabcdef and friends), which is what makes
+	// it sort between the tags it was cut between
+	return comparePrerelease(v.semverPrerelease(), other.semverPrerelease())
+}
 
-	// Compare prerelease according to semver rules
-	return comparePrerelease(v.prerelease, other.prerelease)
+// semverPrerelease returns the pre-release part of the version's SemVer spelling
+func (v *Version) semverPrerelease() string {
+	if v.pseudo == nil {
+		return v.prerelease
+	}
+	text := strings.TrimSpace(v.original)
+	if i := strings.Index(text, "+"); i != -1 {
+		text = text[:i]
+	}
+	if i := strings.Index(text, "-"); i != -1 {
+		return text[i+1:]
+	}
+	return ""
 }
 
 // String returns the string representation of the version
